@@ -97,6 +97,9 @@ var inserts = []struct {
 	{"insert-value-local", Let{"u9", "", Lit{"1"}}},
 	{"insert-closure-local", Let{"u9", "", Clo{nil, Lit{"1"}}}},
 	{"insert-closure-local", Let{"u9", "", Clo{[]Param{{"q9", "Int"}}, Var{"q9"}}}},
+	// closures that open a catch scope of their own (throw annotation) inside whatever catch scopes enclose the site
+	{"insert-throwing-closure-local", Let{"u9", "", Lit{"|q9: Int| ! String -> q9.to_string"}}},
+	{"insert-throwing-closure-local", Let{"u9", "", Lit{"|q9: Int|: Int ! :zz9 -> q9 + 1"}}},
 }
 
 // calls returns the names of the methods a definition calls.
